@@ -376,7 +376,60 @@ def _gate_table(ctx, r, gate):
                 if isinstance(rv, ast.Name) and rv.id in last and not (isinstance(last[rv.id], ast.Call)):
                     rv = last[rv.id]
                 out.append((conds, rv, ret))
-        return out
+        return unroll(fn, out)
+
+    def unroll(fn, rows_):
+        """A loop `for v in (A, B, C): if <test(v)>: return <expr(v)>` is the if-chain over A, B, C: rows that mention the loop variable are
+        expanded per element (with the earlier elements' tests false), the row that skips the loop gets all tests false."""
+        import copy
+        for lp in [n for n in walk_no_nested(fn.node) if isinstance(n, ast.For) and isinstance(n.target, ast.Name)]:
+            it = lp.iter
+            if isinstance(it, ast.Name):
+                rr_ = ctx.p.resolve_in_func(fn, it.id)
+                it = rr_[1] if isinstance(rr_, tuple) and rr_[0] == "const" else it
+            if not (isinstance(it, (ast.Tuple, ast.List)) and it.elts and all(isinstance(e, (ast.Name, ast.Attribute, ast.Constant)) for e in it.elts)):
+                continue
+            v = lp.target.id
+
+            def subst(e, el):
+                e2 = copy.deepcopy(e)
+                class T(ast.NodeTransformer):
+                    def visit_Name(self, n):
+                        return copy.deepcopy(el) if n.id == v else n
+                return ast.fix_missing_locations(T().visit(e2))
+
+            inside = [r_ for r_ in rows_ if any(v in q.names_in(c[2]) for c in r_[0]) or (r_[1] is not None and v in q.names_in(r_[1]))]
+            if not inside:
+                continue
+            tests = [c for c in inside[0][0] if v in q.names_in(c[2])]
+            new_rows = []
+            for r_ in rows_:
+                conds, rv, ret = r_
+                if r_ in inside:
+                    base = [c for c in conds if v not in q.names_in(c[2])]
+                    mine = [c for c in conds if v in q.names_in(c[2])]
+                    for i, el in enumerate(it.elts):
+                        cs = list(base)
+                        for j in range(i):
+                            for c in tests:
+                                e2 = subst(c[2], it.elts[j])
+                                cs.append((norm(e2), not c[1], e2, c[3]))
+                        for c in mine:
+                            e2 = subst(c[2], el)
+                            cs.append((norm(e2), c[1], e2, c[3]))
+                        new_rows.append((cs, subst(rv, el) if rv is not None else None, ret))
+                else:
+                    # a row that passes the loop without entering it: every element's test was false - only for rows whose return lies after the loop
+                    after = getattr(ret, "lineno", 0) > getattr(lp, "end_lineno", 0)
+                    cs = list(conds)
+                    if after:
+                        for el in it.elts:
+                            for c in tests:
+                                e2 = subst(c[2], el)
+                                cs.append((norm(e2), not c[1], e2, c[3]))
+                    new_rows.append((cs, rv, ret))
+            rows_ = new_rows
+        return rows_
 
     rows4 = raw_rows(gate)
     ctx.require(rows4, "gate has no return paths")
@@ -504,6 +557,12 @@ def _gate_table(ctx, r, gate):
                            "(the lowest requested level decides)")
             levels_seen.append(lname)
         else:
+            # flags is None: no level requested at all -> True (the early-return form of the None normalisation)
+            none_arm = any(isinstance(c[2], ast.Compare) and isinstance(c[2].left, ast.Name) and c[2].left.id == fl and isinstance(c[2].comparators[0], ast.Constant) and c[2].comparators[0].value is None
+                           and ((isinstance(c[2].ops[0], (ast.Is, ast.Eq)) and c[1]) or (isinstance(c[2].ops[0], (ast.IsNot, ast.NotEq)) and not c[1])) for c in conds)
+            if none_arm and isinstance(retv, ast.Constant) and retv.value is True:
+                r.ok(desc + " [no flags: always shown unless quiet]")
+                continue
             # all level tests false -> True
             if isinstance(retv, ast.Constant) and retv.value is True:
                 if len(lvl_any) >= 3:
@@ -527,7 +586,9 @@ def _gate_table(ctx, r, gate):
             break
     if first_bit is not None:
         ok = guarded_by(cfg, first_bit, lambda e: isinstance(e, ast.Compare) and isinstance(e.left, ast.Name) and e.left.id == fl
-                        and isinstance(e.ops[0], ast.IsNot), polarity=True) is not None
+                        and isinstance(e.ops[0], ast.IsNot), polarity=True) is not None \
+            or guarded_by(cfg, first_bit, lambda e: isinstance(e, ast.Compare) and isinstance(e.left, ast.Name) and e.left.id == fl and isinstance(e.ops[0], ast.Is)
+                          and isinstance(e.comparators[0], ast.Constant) and e.comparators[0].value is None, polarity=False) is not None
         if not ok:
             # accepted idiom: `if flags is None: flags = 0` before the tests
             norm_nodes = [w for w in cfg.writes(lambda t: t == fl)]
